@@ -502,6 +502,14 @@ class Inotify:
         wd = inotify_add_watch(self._inotify_fd, path, mask)
         if wd == -1:
             Inotify._raise_error()
+        old_path = self._path_for_wd.get(wd)
+        if old_path is not None and old_path != path and not self._follow_symlink:
+            # The kernel hands out the descriptor the directory already has: it was renamed and has
+            # been found again (by a walk) before the events of that rename were read. Its old name
+            # must not be taken for it any more when those events arrive, and it has not left the tree.
+            if self._wd_for_path.get(old_path) == wd:
+                del self._wd_for_path[old_path]
+            self._unsettled_moved_wds.discard(wd)
         self._wd_for_path[path] = wd
         self._path_for_wd[wd] = path
         return wd
